@@ -911,7 +911,9 @@ class World:
         if self.on("C14"):
             nk = self.idkey(new)
             no_twin = pre.get(nk, 0) <= 0 and sib.get(nk, 0) <= 1
-            if was_reg and no_twin and self.cfg["digest"] >= 8:
+            if was_reg and no_twin and self.cfg["digest"] >= 8 and not self.cfg.get("exotic_origins"):
+                # (with origins that share an fqn a registered node of ANOTHER origin can hold the id: the remembered
+                # "ideal" id is then not what a fresh construction gets either -- the differential probe still applies)
                 ideal = self.ideal_id.get(nk)
                 if self.idkey(o) == nk:
                     self.stats.probes["replace_noncompare_only_no_twin"] += 1
